@@ -19,6 +19,14 @@ CHECKS["C03"] = dict(cat="model_checking", ref="DESIGN.md 4/C03",
     text="buildPacket and the whole receive path of all five framers are executed symbolically for every message class: the packet equals the reference ADU (MBAP / unit+PDU+CRC low byte first / ':'+upper hex+LRC+CRLF / bare PDU / '{'..'}') and a fresh framer fed the packet delivers exactly one equal message with unit/tid/pid preserved, for all unit ids, transaction ids and field values. The CRC table code and LRC are proved equal to the standards' definitions by direct AST->z3 translation (K1 step lemma + induction argument, K2).",
     note="computeCRC appears inside framer harnesses as an uninterpreted step function folded over the data (so CONFIRMED holds for any checksum; K1 ties the real one to CRC-16/Modbus); computeLRC as its closed form (K2). PDU conformance itself is C01 (the ADU wraps the library's own PDU). Quick: one shape per class; thorough: all shapes. Binary-framer frames containing delimiter bytes and multi-word diagnostic responses on RTU are listed known findings.",
     technique=TECH)
+CHECKS["C04"] = dict(cat="model_checking", ref="DESIGN.md 4/C04",
+    text="One symbolic step request-bytes -> ServerDecoder.decode -> execute -> datastore from an arbitrary table state (symbolic block start, length, contents; zero-mode on/off; holding/input tables shared or separate) is compared with a reference register-file model: response PDU and the full post-state of all four tables, for FC 1-6, 15, 16, 22, 23 with all body bytes symbolic. z3 decides each path; histories of any length follow by induction over states of this shape (paper argument).",
+    note="Bounds: addressed table 1..4 cells (thorough 1..6), FC15/16/23 with 1-2 data bytes/registers (thorough 3), other three tables fixed decoys. The reference model (spec/regfile.py) is the trusted reading of the spec. Bitwise AND/OR are modelled by per-bit Boolean expansion.",
+    technique=TECH)
+CHECKS["C05"] = dict(cat="model_checking", ref="DESIGN.md 4/C05",
+    text="The same step harness restricted to requests the reference model rejects: exception code in the spec's decision order (03 before 02), fc|0x80, all four tables unchanged; quantity limits decided over the full 16-bit quantity and address range against 2100-cell tables; every unassigned function code 1..127 answered with exception 01.",
+    note="Bounds as C04; 'datastore failure -> exception 04' is decided with the server front-ends (C09/C12 harnesses). Three listed known findings carve their exact regions (coil value word, coil quantity vs data, short register data).",
+    technique=TECH)
 NA_REASON = "check not built yet in this revision (work in progress; see DESIGN.md build order)"
 
 def main():
